@@ -141,6 +141,15 @@ fn record_probes(stats: &mut Stats, tree: &Tree, inv: &Inv, pred: &model::Predic
     if !fired.write_failed.is_empty() {
         stats.probe("write-fault-between-read-and-write-of-a-target");
     }
+    if n >= 17 {
+        stats.probe("17-or-more-inputs");
+    }
+    if n >= 64 {
+        stats.probe("64-or-more-inputs");
+        if pred.inputs.iter().filter(|i| !matches!(i.class, InputClass::Formatted)).count() == 1 {
+            stats.probe("64-or-more-inputs-exactly-one-not-formatted");
+        }
+    }
     if !fired.read_failed.is_empty() {
         stats.probe("read-fault-on-an-input");
     }
@@ -283,11 +292,29 @@ pub fn run_case(env: &Env, case: &Case, oracle: &mut Oracle, mut fill: Option<Pl
     let root = env.root();
     let mut executed = case.clone();
     let mut result = RunResult { case: case.clone(), violations: vec![], digests: vec![], logs: vec![], harness_error: None };
+    let _ = std::fs::remove_dir_all(env.home());
+    let _ = std::fs::create_dir_all(env.home());
     if let Err(e) = world::materialise(&root, &case.tree) {
         result.harness_error = Some(format!("materialise: {e}"));
         return result;
     }
     stats.cases += 1;
+    if let Err(e) = world::pin_all(&root) {
+        result.harness_error = Some(format!("pin: {e}"));
+        return result;
+    }
+    let fine = {
+        use std::sync::OnceLock;
+        static FINE: OnceLock<bool> = OnceLock::new();
+        *FINE.get_or_init(|| world::fine_grained_mtime(&env.base))
+    };
+    let mut seen_before = match world::snapshot(&root) {
+        Ok(s) => s,
+        Err(e) => {
+            result.harness_error = Some(format!("snapshot: {e}"));
+            return result;
+        }
+    };
     let mut tree = case.tree.clone();
     let mut events_hint = 40usize;
     let mut prev_write_inv: Option<(Shape, Cfg, String)> = None;
@@ -300,6 +327,13 @@ pub fn run_case(env: &Env, case: &Case, oracle: &mut Oracle, mut fill: Option<Pl
                     break;
                 }
                 world::apply_edit_model(&mut tree, e);
+                match world::snapshot(&root) {
+                    Ok(s) => seen_before = s,
+                    Err(err) => {
+                        result.harness_error = Some(format!("snapshot: {err}"));
+                        break;
+                    }
+                }
                 stats.edits += 1;
                 prev_write_inv = None;
             }
@@ -313,10 +347,7 @@ pub fn run_case(env: &Env, case: &Case, oracle: &mut Oracle, mut fill: Option<Pl
                     plan::add_plan(ctx.rng, ctx.profile, &tree, &mut inv, oracle, events_hint);
                 }
                 executed.steps[idx] = Step::Inv(inv.clone());
-                if let Err(e) = world::pin_all(&root) {
-                    result.harness_error = Some(format!("pin: {e}"));
-                    break;
-                }
+                world::settle(&seen_before, fine);
                 let out = match run::run_inv(env, &inv) {
                     Ok(o) => o,
                     Err(e) => {
@@ -385,7 +416,7 @@ pub fn run_case(env: &Env, case: &Case, oracle: &mut Oracle, mut fill: Option<Pl
                     nontrivial = true;
                 }
                 // ---- verdict
-                let v = model::check(idx, &tree, &inv, &pred, &after, &out);
+                let v = model::check(idx, &tree, &seen_before, &inv, &pred, &after, &out);
                 let write_mode = matches!(&inv.shape, Shape::Files { mode: Mode::Inplace, .. } | Shape::FormatAll { check: false, .. });
                 prev_write_inv = if write_mode && fired.kinds.iter().all(|(k, _)| Rule::new(k, "", 0, 0).is_benign() || k.starts_with("readdir-order")) {
                     Some((inv.shape.clone(), inv.style.cfg(), inv.cwd.clone()))
@@ -398,6 +429,7 @@ pub fn run_case(env: &Env, case: &Case, oracle: &mut Oracle, mut fill: Option<Pl
                 }
                 // advance the model to what is on disk (equal to the prediction where exact)
                 tree = world::snapshot_tree(&after);
+                seen_before = after;
             }
         }
     }
